@@ -767,7 +767,7 @@ def sync_check(prop, tier, replay):
             log("REPLAY-DIVERGENCE " + x["summary"][:1500])
         return 1 if summ["violations"] else 0
     base = {"Devices": '{"a", "b"}', "MaxEdits": "2", "Times": "{1, 2}", "Names": '{"n1"}',
-            "EditKinds": '{"new", "upd", "del", "hard"}', "ScanLimit": "2", "K": "2", "Mode": '"sequential"',
+            "EditKinds": '{"new", "upd", "del", "desc", "hard"}', "ScanLimit": "2", "K": "2", "Mode": '"sequential"',
             "Deviations": "{}", "EmitEdges": "FALSE"}
     k = 2
     nsim = 120 if tier == "quick" else 1500
@@ -1047,12 +1047,18 @@ def check_c16(tier, replay):
 
     def extra(i):
         return {"corrupt": mode if i % every == 0 else "none"}
+    # histories whose logs hold byte-identical plaintext events (a folder renamed back to an earlier
+    # name, the same flags or description set again): two names, flags, one slot
+    repeats = {"consts": base_consts(Names=["n1", "n2"], Slots=["s1"], Values=["v1"], MetaFolders=["f1"],
+                                     Enabled=["CreateFolder", "RenameFolder", "SetFlags", "SetDescription",
+                                              "CreateSecret", "SignOutIn", "Compact"]),
+               "max_len": 40, "sample_paths": 60 if tier == "quick" else 300}
     if tier == "quick":
-        inst = [{"consts": base_consts(MetaFolders=["f1"], Enabled=C16_ENABLED), "max_len": 40}]
+        inst = [{"consts": base_consts(MetaFolders=["f1"], Enabled=C16_ENABLED), "max_len": 40}, repeats]
     else:
         inst = [{"consts": base_consts(MetaFolders=["f1"], Enabled=C16_ENABLED), "max_len": 40},
                 {"consts": base_consts(Values=["v3", "v6"], MetaFolders=["f1"], Enabled=C16_ENABLED),
-                 "max_len": 40, "sample_paths": 150}]
+                 "max_len": 40, "sample_paths": 150}, repeats]
     return account_check("C16", tier, replay, inst, rule, ACCOUNT_ASSUME, level="model_checking",
                          path_extra=extra)
 
@@ -1361,7 +1367,12 @@ def check_c11(tier, replay):
         keep = [c for c in cases if c["acl"] == "none"]
         rest = [c for c in cases if c["acl"] != "none"]
         rng.shuffle(rest)
-        cases = keep + rest[:600]
+        # the same share for every access configuration
+        by_acl = {}
+        for c in rest:
+            by_acl.setdefault(c["acl"], []).append(c)
+        share = max(100, 700 // max(1, len(by_acl)))
+        cases = keep + [c for a in sorted(by_acl) for c in by_acl[a][:share]]
     vlib.cargo_build()
     chunks = 8
     files = [open(os.path.join(wd, "cases_%02d.ndjson" % i), "w") for i in range(chunks)]
